@@ -56,6 +56,26 @@ fn flip_case(src: &mut Src, n: &Name) -> Name {
     )
 }
 
+/// The name with bit 5 of one non-letter byte flipped (`@`/`` ` ``, `[`/`{`, 0xC9/0xE9, ...): not equal
+/// to the original under ASCII case folding, but equal under `(a ^ b) & !0x20 == 0` or a 0x5f mask.
+pub fn bit5_twin(src: &mut Src, n: &Name) -> Option<Name> {
+    let mut spots = vec![];
+    for (li, l) in n.0.iter().enumerate() {
+        for (bi, &c) in l.iter().enumerate() {
+            if !c.is_ascii_alphabetic() && label_char_ok(c ^ 0x20) {
+                spots.push((li, bi));
+            }
+        }
+    }
+    if spots.is_empty() {
+        return None;
+    }
+    let (li, bi) = *src.pick(&spots);
+    let mut t = n.clone();
+    t.0[li][bi] ^= 0x20;
+    Some(t)
+}
+
 /// Truncate a name (drop leading labels) until it fits in 255 wire bytes.
 pub fn fit(mut n: Name) -> Name {
     while n.wire_len() > 255 {
@@ -78,7 +98,12 @@ pub fn gen_name(src: &mut Src, ctx: &mut NameCtx) -> Name {
         }
         2 => {
             let base = src.pick(&ctx.used).clone();
-            flip_case(src, &base)
+            if src.chance(64) {
+                // a different name that a sloppy case fold would take for the same one
+                bit5_twin(src, &base).unwrap_or(base)
+            } else {
+                flip_case(src, &base)
+            }
         }
         3 => {
             let k = src.range(1, 4);
@@ -159,6 +184,53 @@ fn gen_blob(src: &mut Src, max: usize) -> Vec<u8> {
         .collect()
 }
 
+/// IPv6 address: random, or one of the shapes address libraries treat specially (IPv4-mapped,
+/// IPv4-compatible, NAT64, unspecified, loopback, link-local, multicast, all ones).
+pub fn gen_v6(src: &mut Src) -> [u8; 16] {
+    let mut a = [0u8; 16];
+    match src.weighted(&[8, 3, 1, 1, 1, 1, 1, 1, 1]) {
+        0 => {
+            for b in a.iter_mut() {
+                *b = src.u8();
+            }
+        }
+        1 => {
+            a[10] = 0xff;
+            a[11] = 0xff;
+            for b in a[12..].iter_mut() {
+                *b = src.u8();
+            }
+        }
+        2 => {
+            for b in a[12..].iter_mut() {
+                *b = src.u8();
+            }
+        }
+        3 => {
+            a[1] = 0x64;
+            a[2] = 0xff;
+            a[3] = 0x9b;
+            for b in a[12..].iter_mut() {
+                *b = src.u8();
+            }
+        }
+        4 => {}
+        5 => a[15] = 1,
+        6 => {
+            a[0] = 0xfe;
+            a[1] = 0x80;
+            a[15] = src.u8();
+        }
+        7 => {
+            a[0] = 0xff;
+            a[1] = 0x02;
+            a[15] = src.u8();
+        }
+        _ => a = [0xff; 16],
+    }
+    a
+}
+
 pub fn gen_record(src: &mut Src, ctx: &mut NameCtx) -> Record {
     let owner = gen_name(src, ctx);
     let class = if src.chance(32) { src.u16() } else { 1 };
@@ -170,11 +242,7 @@ pub fn gen_record(src: &mut Src, ctx: &mut NameCtx) -> Record {
     let (rtype, rdata) = match src.weighted(&[10, 5, 8, 6, 4, 6, 6, 3, 6, 3]) {
         0 => (T_A, Rdata::A([src.u8(), src.u8(), src.u8(), src.u8()])),
         1 => {
-            let mut a = [0u8; 16];
-            for b in a.iter_mut() {
-                *b = src.u8();
-            }
-            (T_AAAA, Rdata::Aaaa(a))
+            (T_AAAA, Rdata::Aaaa(gen_v6(src)))
         }
         2 => (T_NS, Rdata::Name1(gen_name(src, ctx))),
         3 => (T_CNAME, Rdata::Name1(gen_name(src, ctx))),
